@@ -6,6 +6,7 @@ of Entity._parse_response whose shape *is* the decision table.
 """
 import ast
 
+from ..match import facts, Q
 from ..srcmodel import attr_chain, call_name, unparse, norm_text, walk_no_nested
 from ..cfg import cfg_of, handler_names
 from ..dataflow import Origins
@@ -182,17 +183,17 @@ def r2_missing_signature_raises(run):
     cfg = cfg_of(fi, m)
     hits = []
     for rn in cfg.by_kind("raise"):
-        gs = {(unparse(e), pol) for e, pol, _ in cfg.guards(rn.id)}
-        if ("response.signature", False) in gs:
+        gs = facts(cfg, rn.id)
+        if Q("response.signature", False) in gs:
             hits.append((rn, gs))
     key = fi.qual + "::raise-when-unsigned"
     if not hits:
         run.violated("R2", key, "no raise on the unsigned-response branch", fi.loc())
     for rn, gs in hits:
-        extra = gs - {("response.signature", False),
-                      ("require_response_signature", True),
-                      ("response", True)}
-        run.check(("require_response_signature", True) in gs and not extra and
+        extra = gs - {Q("response.signature", False),
+                      Q("require_response_signature", True),
+                      Q("response", True)}
+        run.check(Q("require_response_signature", True) in gs and not extra and
                   c01.raised_class(rn.ast) == "SignatureError", "R2", key,
                   "raise SignatureError iff unsigned and "
                   "require_response_signature",
@@ -236,8 +237,8 @@ def r2_missing_signature_raises(run):
     acfg = cfg_of(af, m)
     found = False
     for rn in acfg.by_kind("raise"):
-        gs = {(unparse(e), pol) for e, pol, _ in acfg.guards(rn.id)}
-        if ("self.require_signature", True) in gs:
+        gs = facts(acfg, rn.id)
+        if Q("self.require_signature", True) in gs:
             found = True
             absent = any(("assertion.signature" in g or "hasattr" in g)
                          for g, _ in gs)
@@ -479,8 +480,8 @@ def r5_either_or(run):
         if not (isinstance(rn.ast.value, ast.Name) and
                 rn.ast.value.id == "response"):
             continue
-        gs = {(unparse(e), pol) for e, pol, _ in cfg.guards(rn.id)}
-        if ("not response", True) in gs or ("not xmlstr", True) in gs:
+        gs = facts(cfg, rn.id)
+        if Q("not response", True) in gs or Q("not xmlstr", True) in gs:
             continue
         finals.append(rn.id)
     run.require(finals, "_parse_response: final `return response` vanished")
